@@ -620,3 +620,42 @@ def _iw_carries(f, i, tainted, direct):
         if f.k(x) == "DeclRefExpr" and f.nodes[x]["decl"].get("id") in tainted:
             return True
     return False
+
+
+def gw9(P, C):
+    """GW-9: the right-hand side handed to the solver has a value in every entry."""
+    C.rule("GW-9", "the dense right-hand side that glamfit_complex hands to cholesky_solve / nnls_normal_block3 is produced by "
+           "cholmod_l_sparse_to_dense (absent entries become zero), cholmod_l_zeros or a copy of such a vector — never by "
+           "cholmod_l_allocate_dense, whose storage is uninitialised: after the slice multiplications R lists only the structurally present "
+           "entries, so a spline without data under it has no entry, and its right-hand side must be zero, not what the heap held", floor=2)
+    from . import ts as _ts
+    f = P.one("glamfit_complex")
+    n = 0
+    for i, cal in f.calls():
+        if not cal or cal["name"] not in ("cholesky_solve", "nnls_normal_block3", "nnls_normal_block", "nnls_normal_block_updown"):
+            continue
+        a = f.strip(f.args(i)[1])
+        n += 1
+        if f.k(a) != "DeclRefExpr":
+            C.ob("GW-9", "glamfit_complex", "rhs-defined#%d" % n, False, f.loc(i), "the right-hand side %s is not a variable" % f.render(a))
+            continue
+        vid = f.nodes[a]["decl"]["id"]
+        srcs = []
+        for x in f.walk():
+            ap = _ts.assign_parts(f, x)
+            if ap and ap[1] is not None and f.k(f.strip(ap[0])) == "DeclRefExpr" and f.nodes[f.strip(ap[0])]["decl"].get("id") == vid:
+                r = f.strip(ap[1])
+                srcs.append((f.nodes[r].get("callee") or {}).get("name") or f.render(r)[:40])
+            if f.k(x) == "DeclStmt":
+                for d in f.nodes[x]["decls"]:
+                    if d.get("id") == vid and d.get("init", -1) >= 0:
+                        r = f.strip(d["init"])
+                        srcs.append((f.nodes[r].get("callee") or {}).get("name") or f.render(r)[:40])
+        good = ("cholmod_l_sparse_to_dense", "cholmod_l_zeros", "cholmod_l_copy_dense")
+        ok = bool(srcs) and all(s_ in good for s_ in srcs)
+        C.ob("GW-9", "glamfit_complex", "rhs-defined#%d" % n, ok, f.loc(i),
+             "%s(..., %s, ...): every entry of the right-hand side is defined (%s)" % (cal["name"], f.render(a), ", ".join(sorted(set(srcs)))) if ok else
+             "%s(..., %s, ...): the right-hand side comes from %s — entries that no data point touches keep whatever the allocation held" %
+             (cal["name"], f.render(a), ", ".join(sorted(set(srcs))) or "nowhere visible"))
+    if n == 0:
+        raise core.AnalysisBroken("GW-9: no solver call in glamfit_complex")
